@@ -565,6 +565,13 @@ def run(ctx):
     from .shared import file_digest_covers_stream
 
     file_digest_covers_stream(ctx, 'C14.R9')
+    from .shared import no_swallowed_source_errors
+
+    no_swallowed_source_errors(ctx, 'C14.R2')
+    from .c03 import r4_local_atomic as _r4la
+    from ..report import Relabel as _RLa
+
+    _r4la(_RLa(ctx, 'C14.R9'))
     from ..report import Relabel as _RL9
     from .c12 import r2_rewind
 
